@@ -313,6 +313,29 @@ def _is_ndarray_subclass(c):
     return any(ast.unparse(b).split(".")[-1] == "ndarray" for b in c.node.bases)
 
 
+def _scratch_attribute(cls, attr):
+    """every method of the class that reads self.<attr> assigns it first, unconditionally (a top-level statement of the method body that precedes
+    the statement containing the read): the value never survives from one call to the next"""
+    any_read = False
+    for g in cls.methods.values():
+        selfn = g.params[0] if g.params else "self"
+        first_assign = None
+        for i, st_ in enumerate(g.node.body):
+            if isinstance(st_, (ast.Assign, ast.AnnAssign)):
+                tg = st_.targets if isinstance(st_, ast.Assign) else [st_.target]
+                if any(isinstance(t, ast.Attribute) and isinstance(t.value, ast.Name) and t.value.id == selfn and t.attr == attr for t in tg):
+                    first_assign = i
+                    break
+        for i, st_ in enumerate(g.node.body):
+            for x in ast.walk(st_):
+                if isinstance(x, ast.Attribute) and isinstance(x.ctx, ast.Load) and isinstance(x.value, ast.Name) and x.value.id == selfn and x.attr == attr:
+                    any_read = True
+                    if first_assign is None or i <= first_assign and not (i == first_assign and False):
+                        if not (first_assign is not None and i > first_assign):
+                            return False
+    return True
+
+
 def shadow_rebind(chk, prog, files, allowed=()):
     """allowed: {(Class, attr): reason} for attributes legitimately assigned outside the constructors"""
     n = 0
@@ -358,6 +381,8 @@ def shadow_rebind(chk, prog, files, allowed=()):
                                     chk.finding("SHADOW-REBIND", rel, g.qname, "self.%s rebound: %s" % (x.attr, stmt_text(s)[:90]),
                                                 "`self.%s` is bound in the constructor to the array data of this ndarray subclass; rebinding it here leaves the object's own buffer "
                                                 "(what NumPy operations, indexing and other operands read) with the old values while accessors read the new ones" % x.attr, line=s.lineno)
+                                elif _scratch_attribute(c, x.attr):
+                                    continue        # assigned unconditionally before every read, in every method that reads it: a scratch slot, never a stale value
                                 else:
                                     chk.finding("SHADOW-REBIND.memo", rel, g.qname, "self.%s cached: %s" % (x.attr, stmt_text(s)[:90]),
                                                 "a method of the mutable ndarray subclass %s stores a derived value in `self.%s`: item assignment and in-place arithmetic on the array "
